@@ -71,7 +71,9 @@ class Model:
         self.waiters.remove(a)
 
 
-F_MODES = [("value", 4), ("raise", 3), ("pending", 6), ("fired", 2), ("failed", 2), ("pending-canceller", 2)]
+# "pending-chained": f returns a Deferred that has already been called back but whose callback chain is waiting on another,
+# unfired Deferred (`called` is true, there is no result yet) - f's result is available only when that inner Deferred fires
+F_MODES = [("value", 4), ("raise", 3), ("pending", 6), ("fired", 2), ("failed", 2), ("pending-canceller", 2), ("pending-chained", 3)]
 
 
 def run(sim):
@@ -194,6 +196,11 @@ def run(sim):
                 fd = defer.Deferred()
             r["fd"] = fd
             r["state"] = "async"
+            if mode == "pending-chained":
+                sim.probe("run_fn_returned_called_but_pending_deferred")
+                outer = defer.succeed("pre%d" % a)
+                outer.addCallback(lambda _ignored: fd)
+                return outer
             return fd
         return f
 
